@@ -236,6 +236,9 @@ C17_LIMITS = {
     'string-table-255xN': ('limit 13 %d\n', 255, [128, 129, 254, 255]),
     'int-matrix-255xN': ('limit 14 %d\n', 128, [64, 65, 127, 128]),
     'record-size-with-description': ('limit 15 %d\n', 248, [200, 247, 248, 249, 250, 255]),
+    # the parameter section filled to the byte: the terminator is the last byte of block 255 at 0, needs a 256th block from 1 on
+    'parameter-section-bytes': ('limit 18 %d\n', 0, [-600, -513, -512, -511, -2, -1, 0, 1, 2, 3, 511, 512, 513]),
+    'parameter-section-bytes-with-frames': ('declp 1 0\ndecla 1 0\nprate 8\narate 1\nlimit 18 %d\nlimit 8 3\n', 0, [-513, -512, -511, -2, -1, 0, 1, 2, 512]),
     'empty-strings': ('limit 16 %d\n', 255, [1, 254, 255, 256, 300, 1000]),
     'shape-0xN': ('limit 17 %d\n', 255, [254, 255, 256, 300]),
     'points': ('limit 6 %d\nprate 8\nlimit 8 2\n', 255, [254, 255, 256, 300]),
@@ -268,7 +271,7 @@ def c17_cases(tier):
     # group id 127 (a loaded file with a sparse id) is the limit: adding one more group afterwards goes beyond it
     emit('group-id-127', 'flayout 0 2 0 0 0 0\nfshape 1 0 1 1 1 7 0 0 3\nfids 0 1 3\nfgroup 126 1 3 0\nload\n')
     emit('group-id-127-plus-one', 'flayout 0 2 0 0 0 0\nfshape 1 0 1 1 1 7 0 0 3\nfids 0 1 3\nfgroup 126 1 3 0\nload\nlimit 2 5\n')
-    heavy = {'frames', 'parameter-blocks', 'parameter-blocks-with-frames', 'subframes-x-channels'}
+    heavy = {'frames', 'parameter-blocks', 'parameter-blocks-with-frames', 'subframes-x-channels', 'parameter-section-bytes', 'parameter-section-bytes-with-frames'}
     pairs = list(itertools.combinations(names, 2))
     if tier == 'quick':
         import random
@@ -277,11 +280,11 @@ def c17_cases(tier):
         rnd.shuffle(pairs)
         pairs = pairs[:20]
     for a, b in pairs:
-        if {a, b} & {'points', 'channels', 'subframes-x-channels', 'frames', 'parameter-blocks-with-frames'} == {a, b} or {a, b} == {'parameter-blocks', 'parameter-blocks-with-frames'}:
+        if {a, b} & {'points', 'channels', 'subframes-x-channels', 'frames', 'parameter-blocks-with-frames'} == {a, b} or len({a, b} & {'parameter-blocks', 'parameter-blocks-with-frames', 'parameter-section-bytes', 'parameter-section-bytes-with-frames'}) == 2:
             continue          # two shape limits in one object need a common frame set; covered by the random part
         ta, La, va = C17_LIMITS[a]; tb, Lb, vb = C17_LIMITS[b]
         # shape-defining limits go last so that frames carry the final shape
-        first, second = (a, b) if b in ('points', 'channels', 'subframes-x-channels', 'frames', 'parameter-blocks-with-frames') else (b, a)
+        first, second = (a, b) if b in ('points', 'channels', 'subframes-x-channels', 'frames', 'parameter-blocks-with-frames', 'parameter-section-bytes-with-frames', 'parameter-section-bytes') else (b, a)
         for x in C17_LIMITS[first][2][1:3] if tier == 'quick' else C17_LIMITS[first][2]:
             for y in C17_LIMITS[second][2][1:3] if tier == 'quick' else C17_LIMITS[second][2]:
                 emit('%s=%d+%s=%d' % (first, x, second, y), C17_LIMITS[first][0] % x + C17_LIMITS[second][0] % y)
@@ -678,7 +681,7 @@ def c19(tier):
     shutil.rmtree(wd, ignore_errors=True); os.makedirs(wd)
     n = 50000 if tier == 'thorough' else 8000
     procs = []
-    for i, (gid, share) in enumerate((('C14', 0.45), ('C02', 0.35), ('C10', 0.15), ('C17', 0.05))):
+    for i, (gid, share) in enumerate((('C14', 0.35), ('C02', 0.30), ('C10', 0.10), ('C17', 0.05), ('C13', 0.12), ('C09', 0.08))):
         sd = os.path.join(wd, 'corpus-' + gid); os.makedirs(sd)
         procs.append(subprocess.Popen([bins['pbt'], gid, '--n', str(max(10, int(n * share))), '--seed', str(V.seed() * 1000 + 900 + i), '--emit', sd, '--work', V.WORK],
                                       stdout=subprocess.DEVNULL, stderr=subprocess.DEVNULL, env=V.base_env({'VERIF_TIER': tier})))
